@@ -137,6 +137,11 @@ def date_schemes(n: int, rng):
     out["calendar"] = cal
     calt = [2010.0 + float(rng.randrange(0, 3)) / 2 for _ in range(n)]
     out["calendar-ties"] = calt
+    # decimal fractions that neither float32 nor float64 hold exactly (2015.44, 1999.13, 17.3, 0.1 …)
+    out["calendar-decimal"] = [round(2000.0 + rng.uniform(0.0, 16.0), rng.choice([2, 2, 3, 4, 6])) for _ in range(n)]
+    agd = [round(rng.uniform(0.05, 18.0), rng.choice([1, 1, 2, 3, 5])) for _ in range(n)]
+    agd[rng.randrange(n)] = 0.0
+    out["ages-decimal"] = agd
     return out
 
 
@@ -191,6 +196,23 @@ def make_timetree(t, dates, heights):
 def dendropy_edges(model):
     """(parent index, child index) for every edge, read from the dendropy tree itself"""
     return [(nd.parent_node.index, nd.index) for nd in model.tree.preorder_node_iter() if nd.parent_node is not None]
+
+
+def ratio_margin(t, leaf, row):
+    """independent float evaluation of the ratio parameterisation: the smallest (height − bound) over the
+    internal nodes relative to the size of the heights. Rows whose margin falls under ~1e-10 cannot be
+    represented in float64 (the node collapses onto its bound) and are not in the testable domain."""
+    n = len(leaf)
+    edges, root, below = independent_index(t, n)
+    parent = {c: p for p, c in edges}
+    H = {root: row[n - 2]}
+    S = max(1.0, abs(row[n - 2]), max(abs(v) for v in leaf))
+    margin = (H[root] - max(leaf)) / S
+    for v in range(2 * n - 3, n - 1, -1):
+        b = max(leaf[i] for i in below[v])
+        H[v] = b + row[v - n] * (H[parent[v]] - b)
+        margin = min(margin, (H[v] - b) / S)
+    return margin
 
 
 # ----------------------------------------------------------------------------- numbers
